@@ -9,6 +9,7 @@ Structural clauses decided (DESIGN.md §5 C01), over every body of the five libr
     tables/c01_loops.json and re-checked structurally (a variant that strictly progresses on every back edge)
  R4 no user-written `unsafe` in the five crates
  R5 every call into a dependency crate from the analysed code is in tables/trusted_api.json
+ R6 no poisoning: interior-mutable analyzer state written on the per-input path is reset before each use (shared with C07-R1)
 """
 import json
 import os
@@ -765,7 +766,15 @@ def rule_external(ctx):
     ctx.floor("R5", "distinct dependency callees", total, 60)
 
 
+def rule_poison(ctx):
+    """R6: no input can poison an analyzer - interior-mutable state written on the per-input path is reset before every use, so an
+    input that fails half-way (error exit) cannot leave something behind that changes how later inputs are analysed"""
+    from . import C07
+    C07.rule_R1(ctx, "R6")
+
+
 def run(ctx):
+    rule_poison(ctx)
     rule_sites(ctx)
     rule_loops(ctx)
     rule_hygiene(ctx)
